@@ -170,7 +170,7 @@ fn table_layout(rep: &mut Report, r: &mut Rng) {
             );
         }
     }
-    if t.iter().count() != 512 || t.iter_mut().count() != 512 {
+    if t.iter().take(600).count() != 512 || t.iter_mut().take(600).count() != 512 {
         rep.violation("PageTable::iter|not-512-items", J::Null);
     }
     rep.exhaustive.push("all 512 slots x {Index<usize>, Index<PageTableIndex>, iter, iter_mut, IndexMut x2}: pointer identity with base+8*i".into());
@@ -212,6 +212,70 @@ fn table_layout(rep: &mut Report, r: &mut Rng) {
         }
     }
     rep.class("table|is_empty-single-entry-exhaustive");
+    // is_empty <=> all bytes zero, also when entries repeat or cancel each other
+    for _ in 0..64 {
+        rep.eval();
+        let mut t2 = PageTable::new();
+        let v = (rand_addr(r) | rand_flags(r)).max(1 << 9);
+        let (i, j, k) = (r.below(512) as usize, r.below(512) as usize, r.below(512) as usize);
+        let w = rand_addr(r) | rand_flags(r);
+        let put = |t: &mut PageTable, idx: usize, val: u64| t[idx].set_addr(PhysAddr::new(val & ADDR_BITS), PageTableFlags::from_bits_truncate(val & FLAG_BITS));
+        put(&mut t2, i, v);
+        put(&mut t2, j, v);
+        if r.chance(1, 2) {
+            put(&mut t2, k, w);
+            put(&mut t2, (k + 1) % 512, v ^ w);
+        }
+        let b = bytes(&t2);
+        if t2.is_empty() != b.iter().all(|&x| x == 0) {
+            rep.violation("PageTable::is_empty|disagrees-with-bytes(repeated-or-cancelling-entries)", J::obj(vec![("slots", J::A(vec![J::U(i as u64), J::U(j as u64)])), ("value", J::hex(v))]));
+            break;
+        }
+    }
+    rep.class("table|is_empty-repeated-entries");
+    // every way of driving the iterators addresses the same slots: random mixes of next / nth / skip / step_by
+    for _ in 0..64 {
+        rep.eval();
+        let mut pos = 0usize;
+        let mut ok = true;
+        let mut trace: Vec<J> = Vec::new();
+        let mut it = t.iter();
+        while pos < 512 && ok {
+            let k = r.below(40) as usize;
+            let (got, exp_pos) = if r.chance(1, 2) { (it.next().map(|e| e as *const PageTableEntry as usize), pos) } else { (it.nth(k).map(|e| e as *const PageTableEntry as usize), pos + k) };
+            trace.push(J::U(exp_pos as u64));
+            let exp = if exp_pos < 512 { Some(base + 8 * exp_pos) } else { None };
+            if got != exp {
+                ok = false;
+            }
+            pos = exp_pos + 1;
+        }
+        drop(it);
+        // bounded: a broken iterator may never end
+        let stepped: Vec<usize> = t.iter().step_by(1 + r.below(7) as usize).take(600).map(|e| (e as *const PageTableEntry as usize).wrapping_sub(base) / 8).collect();
+        let step = if stepped.len() > 1 { stepped[1] - stepped[0] } else { 1 };
+        let ok2 = stepped.iter().enumerate().all(|(n, &s)| s == n * step) && stepped.len() == (511 / step) + 1;
+        // iter_mut: the same walk, writing through the references it hands out
+        let mut posm = 0usize;
+        let mut okm = true;
+        {
+            let mut itm = t.iter_mut();
+            while posm < 512 && okm {
+                let k = r.below(60) as usize;
+                let (got, exp_pos) = if r.chance(1, 2) { (itm.next().map(|e| e as *mut PageTableEntry as usize), posm) } else { (itm.nth(k).map(|e| e as *mut PageTableEntry as usize), posm + k) };
+                let exp = if exp_pos < 512 { Some(base + 8 * exp_pos) } else { None };
+                if got != exp {
+                    okm = false;
+                }
+                posm = exp_pos + 1;
+            }
+        }
+        if !ok || !ok2 || !okm {
+            rep.violation("PageTable::iter|mixed-next-nth-step_by-addresses-wrong-slot", J::obj(vec![("positions", J::A(trace.into_iter().take(20).collect())), ("iter_ok", J::Bool(ok)), ("step_by_ok", J::Bool(ok2)), ("iter_mut_ok", J::Bool(okm))]));
+            break;
+        }
+    }
+    rep.class("table|iterator-laws");
     // zero() clears everything
     t.zero();
     if bytes(&t).iter().any(|&b| b != 0) || !t.is_empty() {
